@@ -528,7 +528,7 @@ func judge(k *kase, o obs) []finding {
 	}
 	// ... and, unless it is REVERT or a pre-execution refusal, all gas consumed (interpreter.go:107-109, evm.go:101-106)
 	if failed && o.Kind != "reverted" && o.Kind != "insufficient-balance" && o.Kind != "depth" && o.GasLeft != 0 {
-		add("C11:fail-keeps-gas:"+k.Entry+":"+o.Kind, fmt.Sprintf("%s failed with %q and kept %d of %d gas", k.Entry, o.ErrText, o.GasLeft, k.Gas))
+		add("C11:fail-keeps-gas:"+k.Entry, fmt.Sprintf("%s failed with %q and kept %d of %d gas", k.Entry, o.ErrText, o.GasLeft, k.Gas))
 	}
 	// a read-only frame either fails or leaves the state alone
 	if k.Entry == "static" && !failed && o.Root1 != "" && o.Root1 != o.Root0 {
@@ -1057,7 +1057,9 @@ func (r *runner) partOps() {
 				if r.c.Thorough() {
 					set = bset3()
 				}
-			case oi.Pops <= 9 && oi.Op == vm.AUTHCALL && !r.c.Thorough():
+			case oi.Pops <= 9 && oi.Op == vm.AUTHCALL:
+				// without a preceding AUTH the operation stops right after the gas computation; the
+				// 5-value product is spent on the authorized variant below (authorizedAuthCall)
 				set = bset3()
 			case oi.Pops <= 9:
 				set = bset5()
@@ -1792,6 +1794,7 @@ func (r *runner) bomb(k *kase) {
 			return
 		}
 		r.c.Outcome("gasfn/bomb:fatal")
+		r.c.Note("confirmed_by_execution_"+oi.Name, fmt.Sprintf("code %s with gas limit 10^6 (dynamic gas of the operation: see note) killed a child node process limited to %d GiB address space: %s [%s]", ck.Code, childAS>>30, fatal, k.Note))
 		fn := gasFnName(oi)
 		r.c.Violation("C11:memory-growth-undercharged:"+fn, "gasfn",
 			fmt.Sprintf("executed with gas limit 10^6 in a child process limited to %d GiB of address space: the node process died with %q while running %s (code %s); expected an ordinary out-of-gas failure",
